@@ -152,7 +152,8 @@ bool TemporalMetricStorage::buildMetrics(CollectorHandle *collector,
             auto agg = merged_metrics->Get(attributes);
             if (agg)
             {
-              merged_metrics->Set(attributes, agg->Merge(aggregation));
+              // previous->Merge(delta): with equal timestamps a last value keeps the newer sample
+              merged_metrics->Set(attributes, aggregation.Merge(*agg));
             }
             else
             {
